@@ -434,6 +434,10 @@ func CheckFlow(r *Run) []Finding {
 		add("C11", "predicate unit %d did not run while task unit %d, which provides only an input of the predicated TASK (not of the predicate), was still running: the predicate is not evaluated as soon as its own inputs are available", scn.GateFor-1, scn.GateU-1)
 	}
 
+	if e.RdvTimedOut.Load() {
+		add("C03", "only %d of the %d functions that are runnable from the start (no predicate, all inputs from cff.Params) were executing at the same time although the limit is %d and nothing else was running (every goroutine of the process was blocked): capacity is lost", e.RdvSeen.Load(), scn.Rdv, concLimit(s, scn))
+	}
+
 	// --- concurrency bound ------------------------------------------------------------
 	if lim := concLimit(s, scn); lim > 0 && int(e.MaxInflight.Load()) > lim {
 		add("C03", "%d user functions of one flow were executing at once; the limit is %d", e.MaxInflight.Load(), lim)
@@ -804,7 +808,35 @@ func Differential(base, mod *Run) []Finding {
 // RdvPlan returns, for a parallel directive, the units whose invocations have
 // no dependency (tasks, element functions, and the End function of an empty or
 // nil collection) and how many such invocations the scenario produces.
+//
+// For a flow: the tasks without a predicate whose inputs all come from
+// cff.Params, and the predicates whose inputs all come from cff.Params.
 func RdvPlan(s *Spec, scn *Scenario) (units []int, n int) {
+	if s.Kind == "flow" {
+		param := map[string]bool{}
+		for _, p := range s.Params {
+			param[p.Key()] = true
+		}
+		free := func(in []TypeRef) bool {
+			for _, x := range in {
+				if !param[x.Key()] {
+					return false
+				}
+			}
+			return true
+		}
+		for _, t := range s.Tasks {
+			switch {
+			case t.Pred != nil && free(t.Pred.In):
+				units = append(units, t.Pred.Unit)
+				n++
+			case t.Pred == nil && free(t.In):
+				units = append(units, t.Unit)
+				n++
+			}
+		}
+		return units, n
+	}
 	if s.Kind != "parallel" {
 		return nil, 0
 	}
